@@ -274,7 +274,7 @@ func (l *bfLog) waitLen(n int, d time.Duration) []bfEvent {
 const (
 	c23ShortTimeout = 300 * time.Millisecond
 	c23HangBound    = 7 * time.Second  // > 20 x the scaled protocol timeouts
-	c23GoodBound    = 40 * time.Second // liveness bound for well-behaved servers
+	c23GoodBound    = 15 * time.Second // liveness bound for well-behaved servers (expected latency: milliseconds)
 )
 
 // hangs already paid for per known finding key (each costs c23HangBound of wall
@@ -292,7 +292,7 @@ func TestC23(t *testing.T) {
 	defer rec.Finish()
 	rec.Assume(
 		"blake2b-256 (golang.org/x/crypto) over the header item located by the harness CBOR parser is the reference block hash",
-		"bounded liveness: a call that has not returned 7 s after the server finished its answer, with the client's batch-start and block timeouts scaled to 300 ms, is reported as a hang (goroutine dump attached); a well-behaved server is given 40 s",
+		"bounded liveness: a call that has not returned 7 s after the server finished its answer, with the client's batch-start and block timeouts scaled to 300 ms, is reported as a hang (goroutine dump attached); a well-behaved server is given 15 s",
 		"a misbehaving answer is always the last request on its connection: the client may answer misbehaviour by closing the connection",
 	)
 	maxKnownHangs := rec.Pick(1, 2)
